@@ -10,7 +10,7 @@ use std::sync::Arc;
 use std::sync::atomic::Ordering::SeqCst;
 use std::time::Duration;
 
-fn expect_of(op: &Op) -> Expect {
+pub(super) fn expect_of(op: &Op) -> Expect {
     let typed = op.api == 1;
     Expect {
         token: op.token,
@@ -21,10 +21,11 @@ fn expect_of(op: &Op) -> Expect {
         fixed_id: None,
         body_prefix: if typed { u8_array_prefix(op.len) } else { vec![] },
         body_format: if typed { 1 } else { 0 },
+        exact_body: None,
     }
 }
 
-fn frame_len(op: &Op) -> u64 {
+pub(super) fn frame_len(op: &Op) -> u64 {
     (48 + path_of_op(op).len() + op.len + if op.api == 1 { u8_array_prefix(op.len).len() } else { 0 }) as u64
 }
 
@@ -33,20 +34,20 @@ fn api_for(token: u64, notify: bool) -> u8 {
     (!notify && token % 3 == 0) as u8
 }
 
-struct Gen {
-    next: u64,
+pub(super) struct Gen {
+    pub(super) next: u64,
     /// false for WebSocket clients, which have no bulk typed-slice entry point
-    typed: bool,
+    pub(super) typed: bool,
 }
 impl Gen {
-    fn new(rng: &mut Rng) -> Gen {
+    pub(super) fn new(rng: &mut Rng) -> Gen {
         Gen { next: (rng.next_u64() >> 24) << 8, typed: true }
     }
-    fn op(&mut self, notify: bool, len: usize) -> Op {
+    pub(super) fn op(&mut self, notify: bool, len: usize) -> Op {
         self.next += 1;
         Op { token: self.next, notify, len, qpad: 0, api: if self.typed { api_for(self.next, notify) } else { 0 } }
     }
-    fn sized(&mut self, rng: &mut Rng, left: &mut usize, thorough: bool) -> Op {
+    pub(super) fn sized(&mut self, rng: &mut Rng, left: &mut usize, thorough: bool) -> Op {
         self.next += 1;
         let qlen = path_of(self.next).len();
         let notify = rng.chance(3, 5);
@@ -65,14 +66,14 @@ fn shape_hash(ws: &[Vec<Op>], extra: u64) -> u64 {
     hash_of(&(shape, extra))
 }
 
-fn stall_plan(rng: &mut Rng, total: u64) -> Vec<(u64, u64)> {
+pub(super) fn stall_plan(rng: &mut Rng, total: u64) -> Vec<(u64, u64)> {
     let n = 2 + rng.usize_below(5);
     let mut v: Vec<(u64, u64)> = (0..n).map(|_| { let at = rng.below(total.max(1)); let long = rng.chance(1, 4); (at, 5 + rng.below(if long { 150 } else { 40 })) }).collect();
     v.sort();
     v
 }
 
-fn run_op_blocking(c: &repe::Client, op: &Op, call_timeout: Duration) -> Result<(), String> {
+pub(super) fn run_op_blocking(c: &repe::Client, op: &Op, call_timeout: Duration) -> Result<(), String> {
     let body = pat_fill(op.token, op.len);
     let path = path_of_op(op);
     if op.notify {
@@ -80,7 +81,7 @@ fn run_op_blocking(c: &repe::Client, op: &Op, call_timeout: Duration) -> Result<
     } else if op.api == 1 {
         // the capture peer's reply is not a typed array: a decode error after the reply arrived is still a delivered request
         match c.call_typed_slice_with_timeout::<_, u8, u8>(&path, &body, call_timeout) {
-            Ok(_) | Err(repe::RepeError::Beve(_)) | Err(repe::RepeError::Json(_)) | Err(repe::RepeError::UnknownEnumValue(_)) => Ok(()),
+            Ok(_) | Err(repe::RepeError::Beve(_)) | Err(repe::RepeError::Json(_)) | Err(repe::RepeError::UnknownEnumValue(_)) | Err(repe::RepeError::UnexpectedBodyFormat { .. }) => Ok(()),
             Err(e) => Err(e.to_string()),
         }
     } else {
@@ -88,12 +89,12 @@ fn run_op_blocking(c: &repe::Client, op: &Op, call_timeout: Duration) -> Result<
     }
 }
 
-fn rcvbuf_choice(rng: &mut Rng, small: bool) -> Option<usize> {
+pub(super) fn rcvbuf_choice(rng: &mut Rng, small: bool) -> Option<usize> {
     // below ~32 KiB the loopback path degenerates into persist-timer probing after a stall (minutes per MiB)
     if small { Some(*rng.pick(&[32768usize, 65536, 131072])) } else if rng.coin() { None } else { Some(*rng.pick(&[65536usize, 262144])) }
 }
 
-fn max_wall(cx: &Cx) -> Duration {
+pub(super) fn max_wall(cx: &Cx) -> Duration {
     Duration::from_secs(if cx.thorough { 240 } else { 60 })
 }
 
@@ -284,13 +285,13 @@ pub enum AKind {
 }
 
 #[derive(Clone)]
-enum AClient {
+pub(super) enum AClient {
     Tcp(repe::AsyncClient),
     Ws(repe::WebSocketClient),
 }
 
 impl AClient {
-    async fn connect(kind: AKind, addr: std::net::SocketAddr, unlimited: bool) -> Result<AClient, String> {
+    pub(super) async fn connect(kind: AKind, addr: std::net::SocketAddr, unlimited: bool) -> Result<AClient, String> {
         match kind {
             AKind::Tcp => repe::AsyncClient::connect(addr).await.map(AClient::Tcp).map_err(|e| e.to_string()),
             AKind::Ws => {
@@ -300,13 +301,13 @@ impl AClient {
             }
         }
     }
-    async fn run_op(&self, op: &Op, call_timeout: Duration) -> Result<(), String> {
+    pub(super) async fn run_op(&self, op: &Op, call_timeout: Duration) -> Result<(), String> {
         let body = pat_fill(op.token, op.len);
         let path = path_of_op(op);
         match (self, op.notify) {
             (AClient::Tcp(c), true) => c.notify_with_formats(&path, 1, Some(&body), 0).await.map_err(|e| e.to_string()),
             (AClient::Tcp(c), false) if op.api == 1 => match c.call_typed_slice_with_timeout::<_, u8, u8>(&path, &body, call_timeout).await {
-                Ok(_) | Err(repe::RepeError::Beve(_)) | Err(repe::RepeError::Json(_)) | Err(repe::RepeError::UnknownEnumValue(_)) => Ok(()),
+                Ok(_) | Err(repe::RepeError::Beve(_)) | Err(repe::RepeError::Json(_)) | Err(repe::RepeError::UnknownEnumValue(_)) | Err(repe::RepeError::UnexpectedBodyFormat { .. }) => Ok(()),
                 Err(e) => Err(e.to_string()),
             },
             (AClient::Tcp(c), false) => c.call_with_formats_and_timeout(&path, 1, Some(&body), 0, call_timeout).await.map(|_| ()).map_err(|e| e.to_string()),
@@ -316,7 +317,7 @@ impl AClient {
     }
 }
 
-fn ep_name(kind: AKind) -> &'static str {
+pub(super) fn ep_name(kind: AKind) -> &'static str {
     if kind == AKind::Tcp { "async_client" } else { "ws_client" }
 }
 
